@@ -115,7 +115,11 @@ func c29Joins(r *findings.Run) {
 		stopAt int
 	}
 	var jobs []jjob
-	for _, k := range joinKinds {
+	kinds := joinKinds
+	if !r.Thorough() {
+		kinds = []joinKind{joinKinds[0], joinKinds[3]} // quick: inner and full outer (left/right share the full join's code paths)
+	}
+	for _, k := range kinds {
 		for _, l := range scripts {
 			for _, rr := range scripts {
 				for _, stop := range []int{1, 2} {
@@ -178,9 +182,13 @@ func c29Nested(r *findings.Run) {
 	}
 	dir := tablesDir()
 	small, _ := jsonSchedFile(dir, 5, -1)
-	for _, lines := range []int{200, 1000, 2000} {
+	sizes, procsList := []int{200, 1000}, []int{1, 4}
+	if r.Thorough() {
+		sizes, procsList = []int{200, 1000, 2000}, []int{1, 2, 4}
+	}
+	for _, lines := range sizes {
 		left, _ := jsonSchedFile(dir, lines, -1)
-		for _, procs := range []int{1, 2, 4} {
+		for _, procs := range procsList {
 			for _, q := range []string{
 				fmt.Sprintf("SELECT COUNT(*) AS c FROM %s a LOOKUP JOIN %s b ON a.i = b.i", left, small),
 				fmt.Sprintf("SELECT COUNT(*) AS c FROM %s a LOOKUP JOIN (SELECT * FROM %s c LIMIT 1) b ON a.i >= b.i", left, small),
